@@ -112,6 +112,48 @@ example : ∃ sol, colSU envCoup stCoup false (some eig) (fun _ => 1) 2 = .ok so
         cases hed
         exact ⟨fun _ => ![2, 3], by decide, by decide, by decide, by decide, by decide⟩) sol h
 
+/-- `colSU_zero_freq` on the system with the damped rigid-body mode, both constructor paths: at `Ω = 0`
+the rigid-body row holds `d = v = 0`, `a = f/m = 1`, the elastic and residual-flexibility rows the
+static solution `3 = 1/2`, `2 = 1/3` with `v = a = 0` -/
+example : ∀ uncReal : Bool, ∃ sol,
+    colSU envUncD (if uncReal then stUnc else stCoup) uncReal none (fun _ => 1) 0 = .ok sol ∧
+    sol.map (fun x => (x.d, x.v, x.a)) = [(0, 0, 1), (3, 0, 0), (2, 0, 0)] ∧
+    (∀ r, r < 3 → r ∉ lay.rb →
+      ((List.range 3).map fun c =>
+        partStiff envUncD.i 0 envUncD.M envUncD.rbDamping envUncD.B envUncD.K lay.rb lay.el lay.rf r c *
+          (rowOf sol c).d).sum = (fun _ => 1) r ∧ (rowOf sol r).v = 0 ∧ (rowOf sol r).a = 0) := by
+  intro uncReal
+  have hz : ∀ x, envUncD.isZero x = true ↔ x = 0 := fun x => by simp [envUncD, envUnc]
+  have hunc : envUncD.unc = true → (∀ r c, r ≠ c → envUncD.M r c = 0 ∧ envUncD.B r c = 0 ∧ envUncD.K r c = 0) ∧
+      (∀ r ∈ lay.rf, envUncD.K r r ≠ 0) ∧ (∀ r ∈ lay.rb, envUncD.M r r ≠ 0) ∧
+      ∀ r ∈ lay.el, envUncD.i * (envUncD.B r r * 0) + envUncD.K r r - envUncD.M r r * (0 * 0) ≠ 0 :=
+    fun _ => ⟨fun r c hne => by simp [envUncD, envUnc, hne], by decide, by decide, by decide⟩
+  cases uncReal with
+  | true =>
+    have hres : (match colSU envUncD stUnc true none (fun _ => 1) 0 with
+        | .ok sol => sol.map fun x => (x.d, x.v, x.a)
+        | .error _ => []) = [(0, 0, 1), (3, 0, 0), (2, 0, 0)] := by decide +kernel
+    cases h : colSU envUncD stUnc true none (fun _ => 1) 0 with
+    | error m => rw [h] at hres; cases hres
+    | ok sol =>
+      rw [h] at hres
+      refine ⟨sol, h, hres, ?_⟩
+      exact (colSU_zero_freq envUncD hz lay (by decide) (by decide) (by decide) true
+        (fun _ => rfl) stUnc (by decide) none (fun _ => 1) (by decide) rfl rfl
+        (fun h => by cases h) hunc (fun h => by cases h) sol h).1
+  | false =>
+    have hres : (match colSU envUncD stCoup false none (fun _ => 1) 0 with
+        | .ok sol => sol.map fun x => (x.d, x.v, x.a)
+        | .error _ => []) = [(0, 0, 1), (3, 0, 0), (2, 0, 0)] := by decide +kernel
+    cases h : colSU envUncD stCoup false none (fun _ => 1) 0 with
+    | error m => rw [h] at hres; cases hres
+    | ok sol =>
+      rw [h] at hres
+      refine ⟨sol, h, hres, ?_⟩
+      exact (colSU_zero_freq envUncD hz lay (by decide) (by decide) (by decide) false
+        (fun h => by cases h) stCoup (by decide) none (fun _ => 1) (by decide) rfl rfl
+        (fun h => by cases h) hunc (fun h => by cases h) sol h).1
+
 /-- `colSU_eq_colFD_unc` on the system with the damped rigid-body mode: both solvers return a column
 and the two columns are equal row by row -/
 example : ∃ solSU solFD, colSU envUncD stUnc true none (fun _ => 1) 1 = .ok solSU ∧
